@@ -284,6 +284,33 @@ def generate_executor(repo=None):
     return out, changed, []
 
 
+# ------------------------------------------------------------------ Parallel.__call__: the sequential shortcut
+def generate_call(repo=None):
+    """the test under which Parallel.__call__ runs the tasks in the calling thread (`_get_sequential_output`), as a function of
+    the number of workers the backend's configure() returned"""
+    repo = repo or common.REPO
+    path = os.path.join(repo, "joblib", "parallel.py")
+    node, _ = translate.find_function(path, "Parallel.__call__")
+    hits = [n for n in node.body if isinstance(n, ast.If) and any(
+        isinstance(x, ast.Call) and ast.unparse(x.func) == "self._get_sequential_output" for b_ in n.body for x in ast.walk(b_))]
+    if len(hits) != 1 or hits[0].orelse:
+        raise translate.TranslateError("translation of Parallel.__call__ no longer matches: the sequential shortcut was not found")
+    src = [ast.unparse(st) for st in node.body]
+    if "n_jobs = self._initialize_backend()" not in "\n".join(src) or "n_jobs = self._effective_n_jobs()" not in "\n".join(src):
+        raise translate.TranslateError("translation of Parallel.__call__ no longer matches: n_jobs is not what the backend returned")
+    tr = translate.Tr({"subst": {}})
+    c, t, r = tr.truth(tr.expr(hits[0].test, {"n_jobs": ("n_jobs", "Z")}), hits[0].test)
+    if r:
+        raise translate.TranslateError("translation of Parallel.__call__ no longer matches: raising test")
+    text = ("(* REGENERATED on every run by harness/gen_c15.py from joblib/parallel.py (Parallel.__call__).  Do not edit.\n"
+            "   n_jobs = what _initialize_backend() / _effective_n_jobs() returned for this call, WHATEVER the backend is. *)\n"
+            "From Coq Require Import ZArith List Bool.\nRequire Import JV.Base.PyPrelude.\nOpen Scope Z_scope.\n\n"
+            "Definition call_runs_inline (n_jobs : Z) : bool := %s.\n" % c)
+    out = os.path.join(common.COQ, "Gen", "T_call.v")
+    changed = common.write_if_changed(out, text)
+    return out, changed, []
+
+
 HEADER = """(* REGENERATED on every run by harness/gen_c15.py from joblib/_parallel_backends.py and
    joblib/externals/loky/backend/context.py.  Do not edit.  The reading table is in gen_c15.py. *)
 From Coq Require Import ZArith List Bool.
@@ -320,6 +347,8 @@ def generate(repo=None):
 
 
 if __name__ == "__main__":
+    print(generate_call())
+    print(open(os.path.join(common.COQ, "Gen", "T_call.v")).read())
     print(generate_executor())
     print(open(os.path.join(common.COQ, "Gen", "T_executor.v")).read())
     print(generate_nested())
